@@ -18,7 +18,9 @@ RULE = ("(1) Parameter(**d).get_ref_value(v) on the FULL cross product Type x De
         "(2) end-to-end templates with declared / undeclared / pseudo-parameter names, supplied and unsupplied values, SSM strings, "
         "references in typed and generic positions; (3) for every NoEcho parameter a fresh random token is supplied: the token must not occur "
         "anywhere in the JSON-mode dump of Conditions+Resources and the result must equal the one obtained with a second token; "
-        "(4) has_hardcoded_credentials on resources / IAM users whose credential fields are literals or references to NoEcho parameters; "
+        "(4) has_hardcoded_credentials on resources / IAM users whose credential fields are literals or references to NoEcho parameters, "
+        "incl. ONE IAM user whose LoginProfile.Password refers to an unset NoEcho parameter and whose Metadata authentication block holds a literal key / "
+        "a reference to a NoEcho parameter with a Default / only marker-valued entries; "
         "(5) histories: one model (or freshly parsed models of one template) resolved with several parameter assignments in a row that differ in exactly "
         "the key its conditions / references depend on (pseudo, undeclared, declared with and without Default), incl. the SAME dict object handed over "
         "again -- every answer must be the one a fresh process gives. "
@@ -117,7 +119,8 @@ class SecretSurface(core.Surface):
 
 class HcSurface(core.Surface):
     name = "resolve(extra).Resources[id].has_hardcoded_credentials()"
-    theorem = "C04_hc_iff / C04_marker_iff"
+    theorem = ("C04_hc_resource_iff / C04_hc_user_iff / C04_hc_user_password_does_not_mask_metadata / "
+               "C04_marker_only_from_unset_noecho / C04_set_noecho_ref_reported")
     shrinkable = True
     frozen = frozenset({"rid"})
 
@@ -218,6 +221,52 @@ def gen_hc_case(rng):
     return {"template": {"Parameters": params, "Resources": {"R": res}}, "extra": extra, "rid": "R"}
 
 
+CRED_FIELDS = ["accessKeyId", "password", "secretKey"]
+
+
+def hc_user_combo(kind, rng=None, supplied=False):
+    """ONE AWS::IAM::User that combines a LoginProfile.Password = Ref to an UNSET NoEcho parameter (the forgiven marker) with a
+    Metadata authentication block that holds  a: a literal key;  b: a Ref to a NoEcho parameter WITH a Default;
+    c: only marker-valued entries (Ref / Sub of the unset parameter, the marker spelled out).  The password must neither
+    be reported by itself nor mask the verdict of the Metadata (C04_hc_user_password_does_not_mask_metadata)."""
+    pick = (lambda seq: rng.choice(seq)) if rng else (lambda seq: seq[0])
+    params = {"Secret": {"Type": "String", "NoEcho": True},
+              "Keyed": {"Type": "String", "NoEcho": pick([True, "true"]), "Default": pick(["dflt", "", 0])},
+              "Plain": {"Type": "String", "Default": "plain"}}
+
+    def marker_valued():
+        return pick([{"Ref": "Secret"}, "NO_ECHO_NO_DEFAULT", {"Fn::Sub": "${Secret}"}])
+    names = ["a1", "a2", "a3"][: (rng.randint(1, 3) if rng else 2)]
+    auth = {}
+    for name in names:
+        entry = {"type": pick(["basic", "S3"])}
+        fields = rng.sample(CRED_FIELDS, rng.randint(0, 3)) if rng else CRED_FIELDS[:2]
+        for f in fields:
+            entry[f] = marker_valued()
+        if rng is None or rng.random() < 0.5:
+            entry["username"] = pick(["admin", {"Ref": "Plain"}])        # not a credential field: never reported
+        auth[name] = entry
+    if kind in "ab":
+        target = auth[pick(names) if rng else names[-1]]
+        field = pick(CRED_FIELDS) if rng else "secretKey"
+        target[field] = (pick(["hardcoded", "", "NO_ECHO_WITH_DEFAULT", "no_echo_no_default", {"Ref": "Plain"}]) if kind == "a"
+                         else pick([{"Ref": "Keyed"}, {"Fn::Sub": "${Keyed}"}]))
+    res = {"Type": "AWS::IAM::User",
+           "Properties": {"LoginProfile": {"Password": {"Ref": "Secret"}}},
+           "Metadata": {"AWS::CloudFormation::Authentication": auth}}
+    if rng and rng.random() < 0.3:
+        res["Properties"]["LoginProfile"]["PasswordResetRequired"] = True
+    if rng and rng.random() < 0.3:
+        res["Metadata"]["Other"] = {"x": "y"}
+    extra = {"Secret": pick(["supplied-secret", ""])} if supplied else {}
+    return {"template": {"Parameters": params, "Resources": {"R": res}}, "extra": extra, "rid": "R"}
+
+
+def gen_hc_user_combo(rng):
+    # mostly with the parameter unset; now and then a value is supplied, which turns every reference into NO_ECHO_WITH_VALUE
+    return hc_user_combo(rng.choice("abc"), rng, supplied=rng.random() < 0.12)
+
+
 def gen_secret_case(rng):
     x = tplgen.gen_template(rng)
     t = x["template"]
@@ -254,12 +303,17 @@ def cases(rng, tier, shard, nshards):
     resgen.check_alphabet()
     if shard == 0:
         yield from corpus()
+        for kind in "abc":                       # the three combinations, fixed (whatever the seed), unset and supplied
+            yield HC, hc_user_combo(kind)
+            yield HC, hc_user_combo(kind, supplied=True)
     for k, c in enumerate(table()):
         if k % nshards == shard:
             yield c
     n = {"quick": 700, "thorough": 7000}[tier]
     for k in range(n):
         yield HC, gen_hc_case(rng)
+        if k % 4 == 0:
+            yield HC, gen_hc_user_combo(rng)
         yield SECRET, gen_secret_case(rng)
         yield E2E, tplgen.gen_template(rng)
         if k % 2 == 0:
